@@ -36,6 +36,7 @@ bool prop_run(Tape &t, Report &r) {
   r.label(sfmt("bs%d/%d", s.bs0, s.bs1));
   if (N == 0) r.label("N=0"); else if (N < s.bs1) r.label("N<bs1"); else if (N % (s.bs1 / 2) == 0) r.label("N multiple of bs1/2");
   if (pieces.size() >= 3) r.label("pieces>=3");
+  if (lay.style == 5) r.label("paged by libogg");
 
   // (a) packet stream shape
   int64_t last = -1; int eos_count = 0;
